@@ -19,6 +19,7 @@
 EXTENDS Integers, Sequences, FiniteSets, TLC, Json, IOUtils, SequencesExt
 
 CONSTANTS MaxLen, Sizes, Toks, UnitPrefixes, CaseFile, ResultFile,
+          FullOK,     \* the full 200 is acceptable for every request (runs in which the origin refuses Range and the proxy retries without it)
           IfRangeOn   \* also generate the If-Range cases (end-to-end runs only: they need a stored representation)
 
 WS      == {"SP", "TAB"}
@@ -119,7 +120,7 @@ AllowedIR(r) == LET a == Allowed(r.p, r.t, r.size) IN
                 ELSE CASE IRClass(IROf(r)) = "match" -> a
                        [] IRClass(IROf(r)) = "mismatch" -> {<<"200">>}
                        [] OTHER -> a \cup {<<"200">>}
-Bad == {i \in 1..Len(Results) : OutOf(Results[i]) \notin AllowedIR(Results[i])}
+Bad == {i \in 1..Len(Results) : OutOf(Results[i]) \notin AllowedIR(Results[i]) \cup (IF FullOK THEN {<<"200">>} ELSE {})}
 Judge == PrintT(<<"RANGE-RESULT", Len(Results), Cardinality(Bad),
                   [i \in (IF Bad = {} THEN {} ELSE {CHOOSE x \in Bad : \A y \in Bad : x <= y}) |->
                       [case |-> Results[i], allowed |-> AllowedIR(Results[i])]],
